@@ -436,7 +436,7 @@ class Observer:
         if len(rows) and good == 0:
             tag = -1
         if not rows:
-            tag = p  # no polygon at all: every coordinate system is vacuously the right one
+            tag = 0 if (p == 0 or pe == "split") else p  # no polygon at all: vacuously in the expected system
         return rows, tag, data, dict(reversed=rev, pieces=info)
 
 
@@ -621,8 +621,17 @@ def lean_spec(ctx, t, op, o):
     return v.split(" ", 1)[1].split(",")
 
 
+# repair switches of the Lean model (Polys.Repairs: ignoreProj sideRestore copyFrame), one per proposed patch
+# under fixes/ that changes modelled behaviour; all on = the code with the patches.  VERIF_C15_REPAIRS=000 runs the
+# model of the unpatched code (development aid only: the verdict never comes from the model run).
+import os as _os
+
+REPAIRS = [int(c) for c in _os.environ.get("VERIF_C15_REPAIRS", "111")]
+
+
 def lean_hist(ctx, t, ops):
-    tok = common.Tok(ctx.driver.ask("C15.hist", t.enc_g(), str(len(ops)), " ".join(enc_op(t, op) for op in ops)))
+    tok = common.Tok(ctx.driver.ask("C15.hist", " ".join(str(b) for b in REPAIRS), t.enc_g(), str(len(ops)),
+                                    " ".join(enc_op(t, op) for op in ops)))
     n = tok.int()
     steps = []
     for _ in range(n):
@@ -799,8 +808,6 @@ def report(ctx, ux, t: Truth, ops, tag, fresh_memo):
             if not o["err"] and o.get("rettype") and o["rettype"] != ENG[op["eng"]]:
                 ctx.hit("note:engine-not-honoured(returned " + o["rettype"] + ")")
         if not o["err"]:
-            if o["tag"] == 0 and op["proj"] != 0 and not (PE[op["pe"]] == "split"):
-                ctx.hit("note:projection-requested-but-lonlat-vertices/" + KIND[op["kind"]] + "/" + PE[op["pe"]])
             if (o.get("notes") or {}).get("reversed"):
                 ctx.hit("note:ring-reversed", o["notes"]["reversed"])
             pi = (o.get("notes") or {}).get("pieces")
@@ -1133,7 +1140,8 @@ def run(ctx):
         "PARAMETERS of the Lean model, measured here with cartopy / antimeridian (third-party behaviour not verified)",
         "'split' pieces are judged by a shapely oracle (no piece edge spans >= 180 deg, pieces tile the unwrapped face); "
         "faces around a pole are identified but not judged for area",
-        "a requested projection may leave the vertices in lon/lat (the property allows either); counted under 'note:'",
+        "with a projection the vertices must be the projected corners ('split' pieces stay in lon/lat: only the "
+        "LineCollection accepts 'split' with a projection and documents that it does not project)",
         "the `project=` / `exclude_nan_polygons=` / `exclude_antimeridian=` keyword arguments are outside the property's "
         "quantifier and not generated",
         "NumPy / pandas / spatialpandas / geopandas / shapely / matplotlib semantics are tied to the model only by this "
